@@ -25,6 +25,10 @@ theorem tie_h_api_dagstore_Rename : Extracted.Api.h_api_dagstore_Rename = Canon.
 theorem tie_h_api_dagstore_UpdateSpec : Extracted.Api.h_api_dagstore_UpdateSpec = Canon.Api.h_api_dagstore_UpdateSpec := by decide +kernel
 theorem tie_h_api_flagstore_ToggleSuspend : Extracted.Api.h_api_flagstore_ToggleSuspend = Canon.Api.h_api_flagstore_ToggleSuspend := by decide +kernel
 theorem tie_h_api_jsondb_FindByRequestID : Extracted.Api.h_api_jsondb_FindByRequestID = Canon.Api.h_api_jsondb_FindByRequestID := by decide +kernel
+theorem tie_h_rest_api_frontend_dag_handler_go : Extracted.Api.h_rest_api_frontend_dag_handler_go = Canon.Api.h_rest_api_frontend_dag_handler_go := by decide +kernel
+theorem tie_h_rest_api_frontend_dag_convert_go : Extracted.Api.h_rest_api_frontend_dag_convert_go = Canon.Api.h_rest_api_frontend_dag_convert_go := by decide +kernel
+theorem tie_h_rest_api_client_client_go : Extracted.Api.h_rest_api_client_client_go = Canon.Api.h_rest_api_client_client_go := by decide +kernel
+theorem tie_h_rest_api_cmd_start_go : Extracted.Api.h_rest_api_cmd_start_go = Canon.Api.h_rest_api_cmd_start_go := by decide +kernel
 
 #print axioms tie_h_api_handler_postAction
 #print axioms tie_h_api_handler_processUpdateStatus
@@ -48,5 +52,9 @@ theorem tie_h_api_jsondb_FindByRequestID : Extracted.Api.h_api_jsondb_FindByRequ
 #print axioms tie_h_api_dagstore_UpdateSpec
 #print axioms tie_h_api_flagstore_ToggleSuspend
 #print axioms tie_h_api_jsondb_FindByRequestID
+#print axioms tie_h_rest_api_frontend_dag_handler_go
+#print axioms tie_h_rest_api_frontend_dag_convert_go
+#print axioms tie_h_rest_api_client_client_go
+#print axioms tie_h_rest_api_cmd_start_go
 
 end BdModel.Tie.Api
